@@ -1155,7 +1155,8 @@ Error JitAllocator::query(Out<Span> out, void* rx) const noexcept {
   uint32_t area_start = uint32_t(offset >> pool->granularity_log2);
 
   bool is_used = Support::bit_vector_get_bit(block->_used_bit_vector, area_start);
-  if (ASMJIT_UNLIKELY(!is_used)) {
+  // The initial padding granule is marked as used, but it is not an allocated span.
+  if (ASMJIT_UNLIKELY(!is_used || area_start < block->initial_area_start())) {
     return make_error(Error::kInvalidArgument);
   }
 
